@@ -296,6 +296,50 @@ def acquire_wrappers(plug, names):
     return out
 
 
+MRP = "src/CppUTestExt/MemoryReporterPlugin.cpp"
+MRA = "src/CppUTestExt/MemoryReportAllocator.cpp"
+
+
+def report_allocator_wiring():
+    """statements of MemoryReporterPlugin::setGlobalMemoryReportAllocators / removeGlobalMemoryReportAllocators"""
+    src = strip_comments(read(MRP))
+    body = function_body(src, r"void\s+MemoryReporterPlugin::setGlobalMemoryReportAllocators\s*\(\s*\)\s*\{")
+    stmts = [norm(x) for x in body.split(";") if norm(x)]
+    install = []
+    if len(stmts) % 2:
+        raise TranslateError("setGlobalMemoryReportAllocators: odd number of statements")
+    for a, b in zip(stmts[0::2], stmts[1::2]):
+        m1 = re.fullmatch(r"(\w+)\.setRealAllocator\((getCurrent\w+Allocator)\(\)\)", a)
+        m2 = re.fullmatch(r"(setCurrent\w+Allocator)\(&(\w+)\)", b)
+        if not m1 or not m2:
+            raise TranslateError("setGlobalMemoryReportAllocators: statements not understood: %s ; %s" % (a, b))
+        install.append((m1.group(1), m1.group(2), m2.group(1), m2.group(2)))
+    body = function_body(src, r"void\s+MemoryReporterPlugin::removeGlobalMemoryReportAllocators\s*\(\s*\)\s*\{")
+    remove = []
+    for st in [norm(x) for x in body.split(";") if norm(x)]:
+        m = re.fullmatch(r"if\((getCurrent\w+Allocator)\(\)==&(\w+)\)(setCurrent\w+Allocator)\((\w+)\.getRealAllocator\(\)\)", st)
+        if not m:
+            raise TranslateError("removeGlobalMemoryReportAllocators: statement not understood: " + st)
+        remove.append(m.groups())
+    if len(install) != 3 or len(remove) != 3:
+        raise TranslateError("report allocator wiring: %d install / %d remove statements" % (len(install), len(remove)))
+    pre = norm(function_body(src, r"void\s+MemoryReporterPlugin::preTestAction\s*\([^)]*\)\s*\{"))
+    post = norm(function_body(src, r"void\s+MemoryReporterPlugin::postTestAction\s*\([^)]*\)\s*\{"))
+    if not pre.startswith("if(formatter_==NULLPTR)return;") or pre.count("setGlobalMemoryReportAllocators();") != 1:
+        raise TranslateError("MemoryReporterPlugin::preTestAction changed shape")
+    if not post.startswith("if(formatter_==NULLPTR)return;removeGlobalMemoryReportAllocators();"):
+        raise TranslateError("MemoryReporterPlugin::postTestAction changed shape")
+    mra = strip_comments(read(MRA))
+    b = norm(function_body(mra, r"TestMemoryAllocator\s*\*\s*MemoryReportAllocator::actualAllocator\s*\(\s*\)\s*\{"))
+    if b != "returnrealAllocator_->actualAllocator();":
+        raise TranslateError("MemoryReportAllocator::actualAllocator changed shape: " + b)
+    for fn, call in (("alloc_name", "alloc_name"), ("free_name", "free_name")):
+        b = norm(function_body(mra, r"MemoryReportAllocator::%s\s*\(\s*\)\s*const\s*\{" % fn))
+        if b != "returnrealAllocator_->%s();" % call:
+            raise TranslateError("MemoryReportAllocator::%s changed shape: %s" % (fn, b))
+    return install, remove
+
+
 def lean_bool(b):
     return "true" if b else "false"
 
@@ -438,7 +482,7 @@ def extract():
         if not re.fullmatch(r"(return)?%s\((memory,)?(size|buffer),file,line\);" % ptr, b):
             raise TranslateError("%s no longer forwards to %s: %s" % (fn, ptr, b))
 
-    t = HEADER % ("translate/extract_leakdetector.py", ", ".join([SRC, HDR, TH, TMA, PLUG]))
+    t = HEADER % ("translate/extract_leakdetector.py", ", ".join([SRC, HDR, TH, TMA, PLUG, MRP, MRA]))
     t += "namespace Gen.LeakDetector\n\n"
     t += "/-- `enum MemLeakPeriod` (include/CppUTest/MemoryLeakDetector.h) -/\ninductive Period\n"
     for p in periods:
@@ -482,7 +526,15 @@ def extract():
     t += "def acquireWrappers : List AcquireWrapper := [\n"
     t += ",\n".join('  { name := "%s", getter := "%s", withLocation := %s, separateNode := %s, isRealloc := %s }'
                     % (n, g, lean_bool(a), lean_bool(b), lean_bool(c)) for n, g, a, b, c in acquires)
-    t += "\n]\n\nend Gen.LeakDetector\n"
+    t += "\n]\n\n"
+    install, remove = report_allocator_wiring()
+    t += "/-- `MemoryReporterPlugin::setGlobalMemoryReportAllocators`, one entry per pair of statements:\n"
+    t += "    `A.setRealAllocator(G()); S(&B);` as (A, G, S, B) -/\n"
+    t += "def reportInstall : List (String × String × String × String) := [\n"
+    t += ",\n".join('  ("%s", "%s", "%s", "%s")' % x for x in install) + "\n]\n\n"
+    t += "/-- `MemoryReporterPlugin::removeGlobalMemoryReportAllocators`: `if (G() == &A) S(B.getRealAllocator());` as (G, A, S, B) -/\n"
+    t += "def reportRemove : List (String × String × String × String) := [\n"
+    t += ",\n".join('  ("%s", "%s", "%s", "%s")' % x for x in remove) + "\n]\n\nend Gen.LeakDetector\n"
     return t
 
 
